@@ -13,18 +13,31 @@ static OutTok ref_tok[OUT_TOKENS];
 static unsigned ref_n;
 static u64 ref_localtime_arg;
 static unsigned ref_localtime_calls;
-static void ref_emit(u8 kind, u8 flags, u8 width, u8 prec, u64 value)
+static void ref_emit(u8 kind, u8 flags, u8 width, u8 prec, u64 value, float fval)
 {
 	if (ref_n < OUT_TOKENS) {
-		ref_tok[ref_n].kind = kind; ref_tok[ref_n].flags = flags; ref_tok[ref_n].width = width;
-		ref_tok[ref_n].prec = prec; ref_tok[ref_n].value = value;
+		ref_tok[ref_n].meta = OUT_META(kind, flags, width, prec); ref_tok[ref_n].value = value; ref_tok[ref_n].fval = fval;
 	}
 	++ref_n;
 }
-static void ref_b(u8 c) { ref_emit('b', 0, 0, 0, c); }
-static void ref_num(u8 kind, u8 flags, u8 width, u8 prec, u64 v) { ref_emit(kind, flags, width, prec, v); }
+static void ref_b(u8 c) { ref_emit('b', 0, 0, 0, c, 0.0f); }
+static void ref_num(u8 kind, u8 flags, u8 width, u8 prec, u64 v) { ref_emit(kind, flags, width, prec, v, 0.0f); }
+static void ref_flt(u8 flags, u8 width, u8 prec, float v) { ref_emit('f', flags, width, prec, 0, v); }
 /* the same arbitrary broken-down time the real code receives from localtime(); the stamp asked for is recorded */
 static const struct tm *ref_localtime(u32 stamp) { ref_localtime_arg = stamp; ++ref_localtime_calls; return &sym_tm; }
+#ifdef REF_MARKERS
+/* composition mode: one marker token per column field; a row field names the member it shows, a footer field its value */
+static void ref_mark(u8 field, const void *member, u64 value)
+{
+	if (member != NULL) value = (u64) ((const LHAFileHeader *) member - hdrs);
+	ref_emit('H', field, 0, 0, value, 0.0f);
+}
+static void out_mark(u8 field, const void *member, u64 value)
+{
+	if (member != NULL) value = (u64) ((const LHAFileHeader *) member - hdrs);
+	out_token('H', field, 0, 0, value);
+}
+#endif
 #include "C19/ref_list.h"
 
 static void c19_compare(void)
@@ -34,11 +47,22 @@ static void c19_compare(void)
 	CHECK(out_n == ref_n, "C19: the output has as many tokens as the reference rendering");
 	for (i = 0; i < OUT_TOKENS; ++i) {
 		if (i < ref_n && i < out_n) {
-			CHECK(out_tok[i].kind == ref_tok[i].kind && out_tok[i].value == ref_tok[i].value, "C19: output token (byte / converted value) equals the reference rendering");
-			CHECK(out_tok[i].flags == ref_tok[i].flags && out_tok[i].width == ref_tok[i].width && out_tok[i].prec == ref_tok[i].prec, "C19: conversion width, justification and precision equal the reference rendering");
+			CHECK((out_tok[i].meta & 0xff) == (ref_tok[i].meta & 0xff) && out_tok[i].value == ref_tok[i].value, "C19: output token (byte / converted integer) equals the reference rendering");
+			CHECK(out_tok[i].fval == ref_tok[i].fval, "C19: floating-point value passed to the conversion equals the reference (single precision)");
+			CHECK(out_tok[i].meta == ref_tok[i].meta, "C19: conversion kind, width, justification and precision equal the reference rendering");
 		}
 	}
 	if (ref_localtime_calls != 0) CHECK(sym_localtime_calls != 0 && sym_localtime_arg == ref_localtime_arg, "C19: the broken-down time printed is that of the right time stamp");
+}
+
+/* end of one compared segment: compare, then restart both streams (keeps token positions concrete for the next
+ * segment) */
+static unsigned c19_segments;
+static void c19_segment(void)
+{
+	c19_compare();      /* only positions below out_n == ref_n are compared, so stale tokens need no clearing */
+	out_n = 0; ref_n = 0; out_bytes = 0; ref_localtime_calls = 0; sym_localtime_calls = 0; sym_time_calls = 0;
+	++c19_segments;
 }
 
 /* header value ranges of the property's quantifier */
